@@ -294,6 +294,10 @@ class Eyring(Expr):
     def __call__(self, variables, backend=math, **kwargs):
         c0, c1, conc0 = self.all_args(variables, backend=backend, **kwargs)
         T = variables["temperature"]
+        try:
+            c1 = c1.simplified  # e.g. kJ/J*K: math.exp would only see the magnitude
+        except AttributeError:
+            pass
         return c0 * T * backend.exp(-c1 / T) * conc0 ** (1 - kwargs["reaction"].order())
 
 
